@@ -3,6 +3,7 @@
     Proofs: Proofs/StartProofs.v (block input), Proofs/OpsProofs.v (chain operators),
     Proofs/FanProofs.v (windows, merge), Proofs/WinCountProofs.v, Proofs/AggProofs.v,
     Proofs/JoinProofs.v, Proofs/BinaryStartProofs.v. *)
+From Noir Require Model.Ops2 Proofs.Ops2Proofs.
 From Noir Require Import Base.Elem Model.Start Model.Ops Model.WinCount Model.WindowOp Model.WinEvent
   Model.BinaryStart Model.Fan Model.Joins
   Proofs.StartSpec Proofs.WinCountSpec Proofs.OpsSpec Proofs.JoinSpec Proofs.BinSpec
@@ -54,6 +55,17 @@ Proof. exact @et_wop_wf. Qed.
 Theorem C05_merge : forall {A} (l : list (elem (bin A A))), wf l = true -> wf (run merge_machine l) = true.
 Proof. exact @merge_wf. Qed.
 (** whole chains *)
+(** every element-wise API operator (filter_map, flatten, inspect, the rich_* family, plain or
+    keyed — instances of [sflat_machine], Model/Ops2.v), add_timestamps (on an input without
+    timestamps; it panics otherwise) and drop_timestamps preserve the grammar *)
+Theorem C05_elementwise : forall {S A B} (f : S -> A -> S * list B) (s0 : S) l,
+  wf l = true -> wf (run (Ops2.sflat_machine f s0) l) = true.
+Proof. exact @Ops2Proofs.sflat_wf. Qed.
+Theorem C05_add_timestamps : forall {A} (tg : A -> Z) (wg : A -> Z -> option Z) (l : list (elem A)),
+  Ops2Proofs.no_ts l -> wf l = true -> wf (run (Ops2.add_ts_machine tg wg) l) = true.
+Proof. exact @Ops2Proofs.add_ts_wf. Qed.
+Theorem C05_drop_timestamps : forall {A} (l : list (elem A)), wf l = true -> wf (run Ops2.drop_ts_machine l) = true.
+Proof. exact @Ops2Proofs.drop_ts_wf. Qed.
 Theorem C05_chain : forall {A B C} (m1 : machine (elem A) (elem B)) (m2 : machine (elem B) (elem C)),
   (forall l, wf l = true -> wf (run m1 l) = true) -> (forall l, wf l = true -> wf (run m2 l) = true) ->
   forall l, wf l = true -> wf (run (compose m1 m2) l) = true.
@@ -101,3 +113,5 @@ Proof. exact rich_map_not_round_local. Qed.
 Print Assumptions C05_block_input.
 Print Assumptions C05_count_window.
 Print Assumptions C05_hash_join_round_local.
+Print Assumptions C05_elementwise.
+Print Assumptions C05_add_timestamps.
